@@ -35,6 +35,7 @@ pub const C05_RULES: &[&str] = &[
     "content_differs_after_merge",
     "index_unreadable_after_merge",
 ];
+pub const C18_RULES: &[&str] = &["second_writer_during_wait_merging_threads", "refused_creation_not_a_lock_error", "lock_not_released"];
 pub const C02_ONLY_RULES: &[&str] = &["commit_not_a_sequential_order_of_concurrent_calls"];
 pub const C04_RULES: &[&str] = &["content_differs_after_merge", "index_unreadable_after_merge", "final_content_differs", "final_index_unreadable", "reload_moved_back", "commit_identity_differs"];
 /// reported for both: the harness cannot tell whose they are
@@ -44,6 +45,7 @@ pub fn belongs(prop: &str, rule: &str) -> bool {
     let own = match prop {
         "C10" => C10_RULES,
         "C04" | "C02" | "C11" => C04_RULES,
+        "C18" => C18_RULES,
         _ => C05_RULES,
     };
     own.contains(&rule) || SHARED_RULES.contains(&rule) || (prop == "C02" && C02_ONLY_RULES.contains(&rule))
@@ -52,6 +54,8 @@ pub fn belongs(prop: &str, rule: &str) -> bool {
 fn relevant(prop: &str, k: &Kind) -> bool {
     match (prop, k) {
         ("C04" | "C02", Kind::MergeVsOps { .. } | Kind::MergeVsRestart { .. } | Kind::OverlappingMerges { .. } | Kind::CommitVsMergeEnd) => true,
+        ("C18", Kind::WaitMergingVsNewWriter) => true,
+        ("C18", _) | (_, Kind::WaitMergingVsNewWriter) => false,
         ("C02", Kind::Producers { .. }) => true,
         (_, Kind::Producers { .. }) => false,
         ("C11" | "C04", Kind::MergeVsOpsFault { .. }) => true,
